@@ -20,6 +20,9 @@ Record obs := mkObs {
   o_crashed : bool;           (* the server process died *)
   o_overlap : bool;           (* the core loop left a request handler (reached core:after-request) while that
                                  handler was still blocked in a step the harness held open *)
+  o_foreign : bool;           (* while a request was being handled, state owned by the core loop (the trigger broker's
+                                 connection table, the channels' trigger states) was read or written by a goroutine
+                                 other than the core loop *)
   o_final_running : bool;     (* at the end the source is (really) active *)
   o_progress : bool }.        (* ... and blocks were still being processed after the last operation *)
 
@@ -34,7 +37,9 @@ Definition args_valid (e : env) (r : request) : bool :=
       (0 <? ns) && (0 <? np)
       && (((ns =? e_nsamp e) && (np =? e_npre e))                      (* no change: fine *)
           || (negb (e_writing e) && (3 <=? np) && (np + 1 <=? ns)))    (* not while writing; room for the edge trigger *)
-  | RqProjectors i b64 matok pc => b64 && matok && in_range (e_nchan e) i && (pc =? e_nsamp e)
+  | RqProjectors i b64 matok pc br bc =>
+      (* one projector row of record length, and the basis its (record length) x 1 counterpart *)
+      b64 && matok && in_range (e_nchan e) i && (pc =? e_nsamp e) && (br =? e_nsamp e) && (bc =? 1)
   | RqWriteControl (WStart l o _) => (l || o) && negb (e_writing e) && negb (o && negb (e_hasproj e))
   | RqWriteControl WStop | RqWriteControl WPause | RqWriteControl (WUnpause ULNone) => true
   | RqWriteControl (WUnpause ULGood) => e_writing e                    (* a label needs a state file *)
@@ -110,7 +115,7 @@ Definition after_op (g : sigma) (o : op) (r : rc) : sigma :=
   | OReq (RqPulseLengths ns np) _, ROk =>
       if (ns =? e_nsamp e) && (np =? e_npre e) then g
       else mkSigma (g_running g) (upd_env e (e_writing e) ns np false) (g_arch g)
-  | OReq (RqProjectors _ _ _ _) _, ROk => mkSigma (g_running g) (upd_env e (e_writing e) (e_nsamp e) (e_npre e) true) (g_arch g)
+  | OReq (RqProjectors _ _ _ _ _ _) _, ROk => mkSigma (g_running g) (upd_env e (e_writing e) (e_nsamp e) (e_npre e) true) (g_arch g)
   | OReq (RqWriteControl (WStart _ _ _)) _, ROk => mkSigma (g_running g) (upd_env e true (e_nsamp e) (e_npre e) (e_hasproj e)) (g_arch g)
   | OReq (RqWriteControl WStop) _, ROk => mkSigma (g_running g) (upd_env e false (e_nsamp e) (e_npre e) (e_hasproj e)) (g_arch g)
   | OReq (RqStoreRaw _) _, ROk => mkSigma (g_running g) e Maybe
@@ -196,4 +201,5 @@ Definition C11_check (o : obs) : bool :=
   && exclusive (o_events o)
   && through_core (o_ops o) (o_events o) false                 (* effects only through the core loop *)
   && negb (o_overlap o)                                        (* a handler is never left running beside the data *)
+  && negb (o_foreign o)                                        (* all of a request's work on loop-owned state is done by the loop *)
   && (negb (o_final_running o) || o_progress o).               (* data processing is not stalled *)
